@@ -173,6 +173,13 @@ def run(ctx):
 
     # B. programs: nano_vm vs nano_vm --isolate-ffi
     srcs = [e2e_program(rng, k) for k in range(10 if quick else 120)]
+    # one run that sends more external calls to the same co-process than any 16-bit counter holds (declared extern and a builtin
+    # that the code generator implements as one), results folded into a value that is printed
+    for k, ncalls in enumerate((66000,) if quick else (65535, 65536, 65537, 70000, 140000)):
+        srcs.append(("MANY%d" % k,
+                     "extern fn labs(x: int) -> int\nfn main() -> int {\n    let mut acc: int = 0\n    let mut i: int = 0\n    unsafe {\n        while (< i %d) {\n            set acc (+ acc (labs (- 0 i)))\n"
+                     "            if (is_alpha (+ 65 (%% i 60))) {\n                set acc (+ acc 1)\n            } else {\n                set acc (+ acc 0)\n            }\n            set i (+ i 2)\n        }\n    }\n"
+                     "    (println acc)\n    (println (char_to_upper 122))\n    (println \"done\")\n    return 0\n}\nshadow main { assert (== 1 1) }\n" % ncalls, ""))
     comp = progs.compile_sources(plain, [(n, s) for n, s, e in srcs])
     with tempfile.TemporaryDirectory(prefix="nvc15", dir="/var/tmp") as td:
         jobs = [(plain, n, b, e, td) for (n, s, e), (_, _, b, err) in zip(srcs, comp) if b]
